@@ -152,7 +152,10 @@ def forbidden_scan() -> list[str]:
 def coq_build(clean=False) -> None:
     if clean:
         sh(["bash", "-c", "find . -name '*.vo' -o -name '*.glob' -o -name '*.vok' -o -name '*.vos' -o -name '.*.aux' | xargs rm -f"], 120, cwd=COQ)
-    rc, out, err = sh(["bash", "-c", "coq_makefile -f _CoqProject -o Makefile.coq >/dev/null && make -f Makefile.coq -j%d" % NPROC], 3000, cwd=COQ)
+    # one build at a time: several checks may be started together, and two concurrent coq_makefile / make runs in one directory
+    # trample each other's Makefile.coq
+    rc, out, err = sh(["flock", os.path.join(COQ, ".build.lock"), "bash", "-c",
+                       "coq_makefile -f _CoqProject -o Makefile.coq >/dev/null && make -f Makefile.coq -j%d" % NPROC], 3000, cwd=COQ)
     if rc != 0:
         raise HarnessError("Coq build failed:\n" + (out + err)[-3000:])
 
